@@ -115,12 +115,14 @@ class C19(Machine):
             sc["config"] = None
             if prng.random() < 0.7:
                 sc["net"] = gen_network(sub_rng(run_seed, "net-block"), {"maa_cascade": 2, "modular": 2, "cascade": 1}, nmax=self.NMAX.get(tier, 6), fmts=self.FMTS, shuffle_order=True)
-        elif prng.random() < 0.35:
+        elif prng.random() < 0.55:
             # skip-seeds scenario: partial expansion, skipping, then the seeds of every node.
             # Skip nodes prune by intersections with other nodes: the part of attractor
             # detection whose outcome is most sensitive to incidental ordering.
             sc["params"]["mode"] = "skip_seeds"
             sc["params"]["expand"] = prng.randint(1, 4)
+            if prng.random() < 0.6:
+                sc["params"]["hash_seeds"] = []  # mostly in-process comparisons here: cheaper, more scenarios
             sc["config"] = None
             if prng.random() < 0.7:
                 sc["net"] = gen_network(sub_rng(run_seed, "net-skip"), {"maa_cascade": 3, "maa": 1, "modular": 1}, nmax=self.NMAX.get(tier, 6), fmts=self.FMTS, shuffle_order=True)
